@@ -30,9 +30,10 @@ def gen_workspace(r, widx):
     for j in range(r.choice([0, 1, 1, 2])):
         pool = bps + comps
         deps = []
-        for d in r.sample(pool, r.randint(1, min(3, len(pool)))):
+        # (a composite may also depend on nothing that is built here: paths and images only)
+        for d in r.sample(pool, r.randint(0 if j == 1 or r.random() < 0.25 else 1, min(3, len(pool)))):
             deps.append("libcnb:" + d["id"])
-        for _ in range(r.choice([0, 1, 2])):
+        for _ in range(r.choice([0, 1, 2]) if deps else r.choice([1, 2])):
             deps.append(r.choice(["docker://docker.io/heroku/procfile-cnb:2.0.1", "../../vendor/other-bp", "./sub/../local-bp", "urn:cnb:registry:heroku/nodejs@1.2.3", "/abs/elsewhere",
                                   "/abs/vendor/current/../bash-bp", "docker://Docker.IO/Heroku/Example:1.2.3", "https://example.com/%7Euser/a/./b.cnb"]))      # copied verbatim
         r.shuffle(deps)
@@ -394,6 +395,27 @@ def scenario(arg):
                 sh.violation("stale:%s" % kind, "%s: the result differs from packaging into an empty directory: %s" % (what, vp.snap_diff(clean, after, 4)), c)
                 return sh.dict()
             sh.nontrivial.add((shape, "preseed", kind, victim["kind"]))
+        # (b2) the same with a custom --package-dir, where the output directory holds ONLY stale content (no earlier package at all)
+        cdir = os.path.join(root, "out-custom")
+        vp.rmtree(cdir)
+        rc, out, err = run_package(cargo_libcnb, root, root, "dev", "out-custom")
+        clean_c = vp.snapshot(cdir)
+        for kind in ["extra-files", "stale-additional-bin", "nested-stale-tree"][: 3 if tier == "thorough" else 1 + widx % 2]:
+            victim = r.choice(ws["bps"] + ws["comps"])
+            vp.rmtree(cdir)
+            preseed(kind, os.path.join(cdir, TRIPLE, "debug", victim["id"].replace("/", "_")))
+            rc, out, err = run_package(cargo_libcnb, root, root, "dev", "out-custom")
+            sh.evaluations += 1
+            c = dict(case, run={"cwd": ".", "profile": "dev", "package_dir": "out-custom", "history": "preseed-only:" + kind, "victim": victim["id"]})
+            what = "packaging into --package-dir out-custom whose output directory for %s holds only %s" % (victim["id"], kind)
+            if not judge_run(ws, root, ".", "dev", cdir, rc, out, err, sh, c, what):
+                return sh.dict()
+            after = vp.snapshot(cdir)
+            if {k: v for k, v in after.items() if v[0] != "f" or not k.endswith(b"package.toml")} != {k: v for k, v in clean_c.items() if v[0] != "f" or not k.endswith(b"package.toml")}:
+                sh.violation("stale:custom-dir:%s" % kind, "%s: the result differs from packaging into an empty directory: %s" % (what, vp.snap_diff(clean_c, after, 4)), c)
+                return sh.dict()
+            sh.nontrivial.add((shape, "preseed-custom-dir", kind, victim["kind"]))
+        vp.rmtree(cdir)
         # (c) crash points
         if crash:
             vp.rmtree(pdir)
